@@ -245,6 +245,10 @@ impl<'a, 'tcx> Cx<'a, 'tcx> {
                 }
                 let _ = write!(o, ",\"cdef\":{}", js(&path_str(self.tcx, uv.def)));
             }
+            Const::Unevaluated(uv, _) => {
+                // named constant (e.g. a thread_local! LocalKey): record which one
+                let _ = write!(o, ",\"cdef\":{}", js(&path_str(self.tcx, uv.def)));
+            }
             Const::Val(cv @ ConstValue::Slice { .. }, _) => {
                 if let Some(bytes) = cv.try_get_slice_bytes_for_diagnostics(self.tcx) {
                     if let Ok(s) = std::str::from_utf8(bytes) {
